@@ -1,6 +1,9 @@
 package sim
 
-import "fmt"
+import (
+	"fmt"
+	"os"
+)
 
 // Workload generation for the exec (E1) and crash (E2) engines. Everything is
 // drawn from one Rng derived from the run seed; profile (a property id) only
@@ -440,9 +443,12 @@ func (g *genCtx) policy() PolicySpec {
 		p.Kind, p.P = "first", 0.1
 	case x < 70:
 		p.Kind, p.P = "last", 0.1
-	default:
+	default: // "prio" (World.prioPick) is implemented but not generated: measured no better than these
 		p.Kind = "starve"
 		p.Starve = Pick(r, []string{"w: ", "pe: ", "px: ", "/cont", "r: ", "api: ", "/s0", "UpdateSequence", "UpdatePlan", "y: ", "y: ", "wa: "})
+	}
+	if k := os.Getenv("SIM_FORCE_POLICY"); k != "" { // development only: compare policies on one tree
+		p = PolicySpec{Kind: k, P: 0.1, Changes: r.Intn(4), Starve: "y: "}
 	}
 	switch x := r.Intn(10); {
 	case x < 6:
